@@ -59,6 +59,23 @@ theorem lazy_equals_eager (l e : State) (h : SEquiv l e) (ops : List Op) :
     simp only [noFaults, List.map_cons, run] at hr ⊢
     exact ⟨by rw [hs.1, hr.1], hr.2⟩
 
+/-- What equivalence means, unfolded once: same kind (for a file: same digest and
+executable bit; for a symlink: same target), and the contents — for a directory
+that has not been initialised yet: what a fault-free fetch produces — either fail
+with the same error or consist of the same names in the same order with
+equivalent children. -/
+theorem equiv_unfold (c : CAS) (a b : Node) :
+    Equiv c a b ↔ kindOf a = kindOf b ∧ ContRel (Equiv c) (contents c [] a) (contents c [] b) :=
+  equiv_iff c a b
+
+/-- … hence at every path both trees denote nothing, or nodes of the same kind. -/
+theorem equiv_same_observations (c : CAS) (a b : Node) (h : Equiv c a b) (p : Path) :
+    (nodeAt c a p = none ∧ nodeAt c b p = none) ∨
+    ∃ va vb, nodeAt c a p = some va ∧ nodeAt c b p = some vb ∧ kindOf va = kindOf vb ∧ Equiv c va vb := by
+  rcases nodeAt_equiv c p a b h with h0 | ⟨va, vb, h1, h2, h3⟩
+  · exact Or.inl h0
+  · exact Or.inr ⟨va, vb, h1, h2, h3.kind, h3⟩
+
 /-- The eager tree is equivalent to the lazy one, for every fuel. -/
 theorem eager_tree_equiv (c : CAS) (fuel : Nat) (n : Node) : Equiv c (expand c fuel n) n :=
   expand_equiv c fuel n
